@@ -1,29 +1,51 @@
 ------------------------------- MODULE Roller -------------------------------
 (* C29.  Roller.Dial (u_roller.go:57-110): one action per step of the loop, for up to two concurrent callers
-   sharing one Roller; the test server accepts the hellos of the IDs in `accept` and refuses the others.
-   A behaviour is a history of STEPS; in a step 1 or 2 callers run Dial concurrently against a fixed server
-   setting [accept, tcpFail]; between steps only WorkingHelloID survives. *)
+   sharing one Roller.  A behaviour is a history of STEPS; in a step 1 or 2 callers run Dial concurrently against a
+   fixed server setting; between steps only WorkingHelloID (and what the server has pinned) survives.
+
+   A ClientHelloID is <<id, seed>>.  For a predefined parrot the seed is 0 and the pair IS the fingerprint.  For a
+   randomized ID (RandIDs; HelloRandomized is in NewRoller's default list) seed 0 means "Seed == nil": the list entry
+   is only a recipe, the concrete fingerprint <<id, s>>, s > 0, comes into being when the handshake of that attempt
+   fills a fresh seed into the UConn's own ClientHelloID (u_parrots.go:2961-2967).  `working` is the CONCRETE
+   fingerprint that worked: "Dial starts with the most recently working ClientHelloID" means that the first hello of
+   the next Dial has that very fingerprint (same seed), not merely the same recipe.
+
+   The test server accepts the parrots in `accept`; randomized hellos according to `rmode`:
+   "refuse" none, "any" all, "pin" only the concrete fingerprint of the randomized hello that succeeded first. *)
 EXTENDS Integers, Sequences, FiniteSets, TLC
 
-CONSTANTS IDs,        \* the candidate ClientHelloIDs
-          None,       \* "no working ID yet" (WorkingHelloID == nil)
+CONSTANTS IDs,        \* the candidate ClientHelloIDs (names)
+          RandIDs,    \* the ones that are randomized recipes (subset of IDs)
+          Seeds,      \* seed numbers available for fresh randomized fingerprints (1..n)
+          Canon,      \* TRUE: a fresh seed is the smallest unused one (state-space reduction); FALSE: any unused one
           MaxSteps,   \* length of the Dial history
           MaxCallers  \* 1 or 2 concurrent callers per step
 
 Callers == 1..MaxCallers
+None    == <<"-", 0>>                   \* WorkingHelloID == nil
+E(id)   == <<id, 0>>                    \* a list entry / an unseeded ClientHelloID
+IsRecipe(x)   == x[1] \in RandIDs /\ x[2] = 0
+IsRandom(x)   == x[1] \in RandIDs
+\* does the hello with concrete fingerprint f come from the ClientHelloID x
+From(f, x) == f = x \/ (IsRecipe(x) /\ f[1] = x[1] /\ f[2] > 0)
 
-VARIABLES configured,  \* Roller.HelloIDs as a set (Dial shuffles its copy, the order in the Roller is immaterial)
-          working,     \* Roller.WorkingHelloID
-          accept, tcpFail, ncall, nsteps,   \* the environment of the current step
+VARIABLES configured,  \* Roller.HelloIDs as a set of entries <<id, 0>> (Dial shuffles its copy, the order is immaterial)
+          working,     \* Roller.WorkingHelloID: None or <<id, seed>>
+          accept, rmode, tcpFail, ncall, nsteps,   \* the environment of the current step
+          pinned,      \* seed of the randomized fingerprint the server has pinned (0: none yet)
+          used,        \* seeds drawn so far
+          dead,        \* seeds of randomized fingerprints whose handshake cannot succeed whatever the server's policy
+                       \* (a randomized spec may be unusable, e.g. "tls: CurvePreferences includes unsupported curve")
           pc,          \* per caller: "idle" | "shuffle" | "read" | "dial" | "hs" | "record" | "done"
           order,       \* helloIDs: the caller's private copy
           idx,         \* position of the loop
           rw,          \* workingHelloId as read under the mutex at the beginning of this call
-          tried,       \* the hellos this call has sent (what the server saw), in order
+          cur,         \* client.ClientHelloID of the attempt in progress (concrete)
+          tried,       \* the concrete fingerprints of the hellos this call has sent (what the server saw), in order
           w0,          \* history: WorkingHelloID when the current step began
-          result       \* [kind : "-" | "tcperr" | "hserr" | "ok", id : the ID of the returned connection or None]
+          result       \* [kind : "-" | "tcperr" | "hserr" | "ok", id : ClientHelloID of the returned connection or None]
 
-vars == <<configured, working, accept, tcpFail, ncall, nsteps, pc, order, idx, rw, tried, w0, result>>
+vars == <<configured, working, accept, rmode, tcpFail, ncall, nsteps, pinned, used, dead, pc, order, idx, rw, cur, tried, w0, result>>
 
 R(kind, id) == [kind |-> kind, id |-> id]
 Perms(S) == {p \in [1..Cardinality(S) -> S] : \A i, j \in 1..Cardinality(S) : i # j => p[i] # p[j]}
@@ -31,36 +53,43 @@ Range(s) == {s[i] : i \in 1..Len(s)}
 NoDup(s) == \A i, j \in 1..Len(s) : i # j => s[i] # s[j]
 Swap1(s, i) == [s EXCEPT ![i] = s[1], ![1] = s[i]]
 Pos(s, x) == CHOOSE i \in 1..Len(s) : s[i] = x
+Min(S) == CHOOSE x \in S : \A y \in S : x <= y
+Fresh == LET free == Seeds \ used IN IF Canon /\ free # {} THEN {Min(free)} ELSE free
+RModes == IF RandIDs = {} THEN {"refuse"} ELSE {"refuse", "any", "pin"}
 
 InitWith(conf, w) ==
   /\ configured = conf /\ working = w /\ w0 = w
-  /\ accept = {} /\ tcpFail = FALSE /\ ncall = 0 /\ nsteps = 0
+  /\ accept = {} /\ rmode = "refuse" /\ tcpFail = FALSE /\ ncall = 0 /\ nsteps = 0 /\ pinned = 0 /\ used = {} /\ dead = {}
   /\ pc = [c \in Callers |-> "idle"] /\ order = [c \in Callers |-> << >>] /\ idx = [c \in Callers |-> 1]
-  /\ rw = [c \in Callers |-> None] /\ tried = [c \in Callers |-> << >>] /\ result = [c \in Callers |-> R("-", None)]
+  /\ rw = [c \in Callers |-> None] /\ cur = [c \in Callers |-> None]
+  /\ tried = [c \in Callers |-> << >>] /\ result = [c \in Callers |-> R("-", None)]
 
-\* the user may have configured any list and may have preset WorkingHelloID (an exported field), also to an ID that is not in the list
-Init == \E conf \in (SUBSET IDs) \ {{}} : \E w \in IDs \cup {None} : InitWith(conf, w)
+\* the user may have configured any list and may have preset WorkingHelloID (an exported field), also to an ID that is
+\* not in the list; a preset randomized ID is the unseeded recipe
+Init == \E S \in (SUBSET IDs) \ {{}} : \E w \in {E(i) : i \in IDs} \cup {None} : InitWith({E(i) : i \in S}, w)
 
 AllIdle == \A c \in Callers : pc[c] \in {"idle", "done"}
 
 \* environment: the next step of the history: server setting and how many callers dial concurrently
-BeginStep(acc, tf, n) ==
+BeginStep(acc, rm, tf, n) ==
   /\ AllIdle /\ nsteps < MaxSteps
-  /\ accept' = acc /\ tcpFail' = tf /\ ncall' = n /\ nsteps' = nsteps + 1
+  /\ accept' = acc /\ rmode' = rm /\ tcpFail' = tf /\ ncall' = n /\ nsteps' = nsteps + 1
   /\ pc' = [c \in Callers |-> IF c <= n THEN "shuffle" ELSE "idle"]
   /\ order' = [c \in Callers |-> << >>] /\ idx' = [c \in Callers |-> 1] /\ rw' = [c \in Callers |-> None]
+  /\ cur' = [c \in Callers |-> None]
   /\ tried' = [c \in Callers |-> << >>] /\ result' = [c \in Callers |-> R("-", None)]
   /\ w0' = working
-  /\ UNCHANGED <<configured, working>>
+  /\ UNCHANGED <<configured, working, pinned, used, dead>>
 
 \* helloIDs := copy(c.HelloIDs); c.r.rand.Shuffle(...)                      (u_roller.go:58-62)
 Shuffle(c) ==
   /\ pc[c] = "shuffle"
   /\ \E p \in Perms(configured) : order' = [order EXCEPT ![c] = p]
   /\ pc' = [pc EXCEPT ![c] = "read"]
-  /\ UNCHANGED <<configured, working, accept, tcpFail, ncall, nsteps, idx, rw, tried, result, w0>>
+  /\ UNCHANGED <<configured, working, accept, rmode, tcpFail, ncall, nsteps, pinned, used, dead, idx, rw, cur, tried, result, w0>>
 
 \* HelloIDMu.Lock(); workingHelloId := c.WorkingHelloID; Unlock(); push it first / prepend it   (u_roller.go:64-81)
+\* `ID == *workingHelloId` compares the whole struct: a seeded working ID is not "found" among unseeded entries
 ReadWorking(c) ==
   /\ pc[c] = "read"
   /\ rw' = [rw EXCEPT ![c] = working]
@@ -69,7 +98,7 @@ ReadWorking(c) ==
         ELSE IF working \in Range(@) THEN Swap1(@, Pos(@, working))     \* helloIDs[i] = helloIDs[0]; helloIDs[0] = working
         ELSE << working >> \o @]                                        \* append([]ClientHelloID{working}, helloIDs...)
   /\ pc' = [pc EXCEPT ![c] = "dial"]
-  /\ UNCHANGED <<configured, working, accept, tcpFail, ncall, nsteps, idx, tried, result, w0>>
+  /\ UNCHANGED <<configured, working, accept, rmode, tcpFail, ncall, nsteps, pinned, used, dead, idx, cur, tried, result, w0>>
 
 \* for _, helloID := range helloIDs { tcpConn, err = net.DialTimeout(...); if err != nil { return nil, err }   (:85-89)
 \* loop exhausted: return nil, err (the last handshake error)                                                     (:109)
@@ -78,48 +107,69 @@ TcpDial(c) ==
   /\ IF idx[c] > Len(order[c]) THEN result' = [result EXCEPT ![c] = R("hserr", None)] /\ pc' = [pc EXCEPT ![c] = "done"]
      ELSE IF tcpFail THEN result' = [result EXCEPT ![c] = R("tcperr", None)] /\ pc' = [pc EXCEPT ![c] = "done"]
      ELSE pc' = [pc EXCEPT ![c] = "hs"] /\ UNCHANGED result
-  /\ UNCHANGED <<configured, working, accept, tcpFail, ncall, nsteps, order, idx, rw, tried, w0>>
+  /\ UNCHANGED <<configured, working, accept, rmode, tcpFail, ncall, nsteps, pinned, used, dead, order, idx, rw, cur, tried, w0>>
+
+ServerAccepts(f) == IF IsRandom(f) THEN rmode = "any" \/ (rmode = "pin" /\ pinned \in {0, f[2]})
+                    ELSE f[1] \in accept
 
 \* client := UClient(tcpConn, nil, helloID); SetSNI; err = client.Handshake(); if err != nil { continue }          (:91-98)
+\* building the hello of an unseeded randomized ID draws a fresh seed into client.ClientHelloID (u_parrots.go:2961-2967)
 Handshake(c) ==
   /\ pc[c] = "hs"
-  /\ tried' = [tried EXCEPT ![c] = Append(@, order[c][idx[c]])]
-  /\ IF order[c][idx[c]] \in accept
-     THEN pc' = [pc EXCEPT ![c] = "record"] /\ UNCHANGED idx
-     ELSE pc' = [pc EXCEPT ![c] = "dial"] /\ idx' = [idx EXCEPT ![c] = @ + 1]
-  /\ UNCHANGED <<configured, working, accept, tcpFail, ncall, nsteps, order, rw, result, w0>>
+  /\ LET x == order[c][idx[c]] IN
+     \E f \in (IF IsRecipe(x) THEN {<<x[1], s>> : s \in Fresh} ELSE {x}) :
+     \E viable \in (IF IsRecipe(x) THEN BOOLEAN ELSE {f[2] \notin dead}) :      \* a fresh randomized spec may be unusable
+       /\ cur' = [cur EXCEPT ![c] = f]
+       /\ used' = used \cup ({f[2]} \ {0})
+       /\ dead' = IF viable THEN dead ELSE dead \cup {f[2]}
+       /\ tried' = [tried EXCEPT ![c] = Append(@, f)]
+       /\ IF ServerAccepts(f) /\ viable
+          THEN /\ pc' = [pc EXCEPT ![c] = "record"] /\ UNCHANGED idx
+               /\ pinned' = IF IsRandom(f) /\ rmode = "pin" THEN f[2] ELSE pinned      \* the server pins the hello that succeeded first
+          ELSE pc' = [pc EXCEPT ![c] = "dial"] /\ idx' = [idx EXCEPT ![c] = @ + 1] /\ UNCHANGED pinned
+  /\ UNCHANGED <<configured, working, accept, rmode, tcpFail, ncall, nsteps, order, rw, result, w0>>
 
 \* HelloIDMu.Lock(); c.WorkingHelloID = &client.ClientHelloID; Unlock(); return client, nil                        (:100-104)
+\* what is recorded is the UConn's own ClientHelloID: for a randomized ID that includes the seed that was drawn
 Record(c) ==
   /\ pc[c] = "record"
-  /\ working' = order[c][idx[c]]
-  /\ result' = [result EXCEPT ![c] = R("ok", order[c][idx[c]])]
+  /\ working' = cur[c]
+  /\ result' = [result EXCEPT ![c] = R("ok", cur[c])]
   /\ pc' = [pc EXCEPT ![c] = "done"]
-  /\ UNCHANGED <<configured, accept, tcpFail, ncall, nsteps, order, idx, rw, tried, w0>>
+  /\ UNCHANGED <<configured, accept, rmode, tcpFail, ncall, nsteps, pinned, used, dead, order, idx, rw, cur, tried, w0>>
 
 CallerStep(c) == Shuffle(c) \/ ReadWorking(c) \/ TcpDial(c) \/ Handshake(c) \/ Record(c)
-Next == \/ \E acc \in SUBSET IDs : \E tf \in BOOLEAN : \E n \in Callers : BeginStep(acc, tf, n)
+Next == \/ \E acc \in SUBSET (IDs \ RandIDs) : \E rm \in RModes : \E tf \in BOOLEAN : \E n \in Callers : BeginStep(acc, rm, tf, n)
         \/ \E c \in Callers : CallerStep(c)
 Spec == Init /\ [][Next]_vars /\ \A c \in Callers : WF_vars(CallerStep(c))
 
 ---------------------------------------------------------------------------------------------------------
 (* Properties *)
 Ok(c) == result[c].kind = "ok"
-\* a call starts with the working ID it found when it began
-StartsWithWorking == \A c \in Callers : (rw[c] # None /\ tried[c] # << >>) => tried[c][1] = rw[c]
-\* each ID at most once per call, and only configured IDs or the working one
-AtMostOnce == \A c \in Callers : NoDup(tried[c]) /\ Range(tried[c]) \subseteq (configured \cup {rw[c]})
-\* the first ID the server accepts ends the call and is the one returned; a call that fails has tried everything
+\* a call starts with the working ID it found when it began: its first hello has that fingerprint
+StartsWithWorking == \A c \in Callers : (rw[c] # None /\ tried[c] # << >>) => From(tried[c][1], rw[c])
+\* a working fingerprint that carries a seed is presented again with the same seed (not re-randomized)
+SameSeedAgain == \A c \in Callers : (rw[c][2] > 0 /\ tried[c] # << >>) => tried[c][1] = rw[c]
+\* each ID at most once per call (one hello per list entry / working ID), and only configured IDs or the working one
+AtMostOnce == \A c \in Callers :
+                 /\ NoDup(tried[c])
+                 /\ \A i \in 1..Len(tried[c]) : \E x \in configured \cup {rw[c]} : From(tried[c][i], x)
+                 /\ \A x \in configured \cup {rw[c]} :
+                       Cardinality({i \in 1..Len(tried[c]) : tried[c][i] # rw[c] /\ From(tried[c][i], x)}) <= 1
+\* the first hello the server accepts ends the call and is the one returned; a call that fails has tried everything
 FirstSuccess ==
   \A c \in Callers :
-    /\ \A i \in 1..(Len(tried[c]) - 1) : tried[c][i] \notin accept
-    /\ Ok(c) => (tried[c] # << >> /\ result[c].id = tried[c][Len(tried[c])] /\ result[c].id \in accept)
-    /\ result[c].kind = "hserr" => (Range(tried[c]) = configured \cup ({rw[c]} \ {None}) /\ Range(tried[c]) \cap accept = {})
+    /\ \A i \in 1..(Len(tried[c]) - 1) : ~IsRandom(tried[c][i]) => tried[c][i][1] \notin accept
+    /\ Ok(c) => (tried[c] # << >> /\ result[c].id = tried[c][Len(tried[c])] /\ (~IsRandom(result[c].id) => result[c].id[1] \in accept))
+    /\ result[c].kind = "hserr" => \A i \in 1..Len(tried[c]) : ~IsRandom(tried[c][i]) => tried[c][i][1] \notin accept
+    /\ result[c].kind = "hserr" => \A x \in configured \cup ({rw[c]} \ {None}) : \E i \in 1..Len(tried[c]) : From(tried[c][i], x)
 \* a TCP failure ends the call at once: no hello was sent and nothing else was tried
 TcpErrorImmediate == \A c \in Callers : (result[c].kind = "tcperr" <=> (pc[c] = "done" /\ tcpFail)) /\ (tcpFail => tried[c] = << >>)
-\* the recorded working ID is the ID of a successful call: after a step it is one of this step's successes, else unchanged
+\* the recorded working ID is the concrete ID of a successful call: after a step one of this step's successes, else unchanged
 Recorded == AllIdle => (\/ \E c \in Callers : Ok(c) /\ working = result[c].id
                         \/ (\A c \in Callers : ~Ok(c)) /\ working = w0)
+\* what was recorded after a success is a concrete fingerprint: a randomized working ID carries its seed
+WorkingIsConcrete == (working # w0 /\ IsRandom(working)) => working[2] > 0
 \* sequential histories: the next call starts with the ID the last successful call returned
 SeqPrefers == (ncall = 1 /\ pc[1] = "done" /\ Ok(1)) => working = result[1].id
 \* liveness: every Dial returns
